@@ -130,6 +130,12 @@ def run_case(case: dict) -> dict:
                 (root / "subprojects" / "lib").mkdir(parents=True)
                 (root / "subprojects" / "lib" / "nolicence.py").write_text("# SPDX-FileCopyrightText: 2020 Sub Project\nx = 1\n")
             gopt = ["--include-meson-subprojects"]
+        # a covered file whose name is stored DECOMPOSED (u + U+0308, as some file systems hand names out): every view and
+        # lint-file speak about it under exactly that name
+        if case["tid"] % 3 == 1:
+            nfd = root / "nfd dir" / "u\u0308bersicht nai\u0308ve.txt"
+            nfd.parent.mkdir(exist_ok=True)
+            nfd.write_text("no information in this one\n")
         base = ["--root", str(root), "--no-multiprocessing", *gopt]
         runs = {}
         for fmt in ("json", "plain", "lines", "quiet"):
